@@ -67,6 +67,7 @@ func checkMain(args []string) int {
 		fmt.Fprintln(os.Stderr, "machinery error:", err)
 		return 2
 	}
+	clauseFilterProp = prop // ext_propfilter.go: clauses of the verified function that belong only to other properties are left out
 	funcs := eng.contracts.funcsWithProp(prop)
 	var lemmas []*Lemma
 	for _, l := range eng.contracts.Lemmas {
